@@ -26,6 +26,8 @@ META = {
     "assumptions": ["qiskit's Operator, cirq.unitary and sympy's represent are the meaning of an exported object",
                     "svsim is cross-checked against circuits built directly with qiskit's own API (not through the exporter)",
                     "pennylane and qutip are not installed, hence not 'available' exporters"],
+    # a case is a BLOCK of circuits (all sequences below a two-letter prefix): the per-case CPU cap is sized for a block
+    "case_cap_s": 900,
     "explanation": "states = circuits; transitions = (circuit, exporter, mode) exports checked.",
 }
 
